@@ -344,10 +344,14 @@ def o : CreationOptions := ⟨[1, 2, 3], [42], [-7, -8], none⟩
 def env : Prog.Env := ⟨fun q => match q with
   | .sha256 _ => .bytes (zeros 32)
   | .clientData _ => .clientData ⟨Spec.str "webauthn.create", B64.encode o.challenge, Spec.str "https://login.example.com"⟩
-  | .urlHost _ => .bytes (Spec.str "example.com")
   | _ => .none⟩
 def rp : RP := ⟨Spec.str "https://example.com", Spec.str "example.com"⟩
 def att : Attestation := ⟨[7], Spec.str "{}", attObj⟩
+
+/-- the example's origins really parse to the hosts the example intends (a subdomain of the RP host, and the RP host) -/
+theorem client_host : Url.hostOf (Spec.str "https://login.example.com") = some (Spec.str "login.example.com") := by
+  decide +kernel
+theorem rp_host : Url.hostOf rp.origin = some rp.id := by decide +kernel
 
 
 set_option maxRecDepth 100000 in
